@@ -60,21 +60,24 @@ fn cursor_offsets(chars: usize) -> Vec<usize> {
 pub fn c05_scale(rep: &mut Report, tier: &str, seed: u64) {
     let quick = tier == "quick";
     let mut dcaps = caps(tier);
-    dcaps.max_depth = if quick { 2 } else { 3 };
+    dcaps.max_depth = 2;
+    dcaps.max_states = 8_000_000;
     let alphabet = vec![ch('a'), ch('é'), ch('𝄞'), k(Key::Bs), k(Key::Left), k(Key::Right)];
     let cbs: Vec<usize> = if quick { vec![258] } else { vec![66, 130, 258, 300, 515] };
     for cb in cbs {
         let mut pre: Vec<(String, Vec<Ev>)> = vec![];
-        for n in thresholds(cb, quick) {
+        let mut sweeps: Vec<(String, Vec<Ev>, usize)> = vec![];
+        for n in thresholds(cb, false) {
             for c in ['a', 'é', '中', '𝄞'] {
+                // the line, then Left until the start: every cursor position is a start of the search
                 let line = fill_line(c, n);
                 let chars = line.len();
-                let offs: Vec<usize> = if quick { cursor_offsets(chars).into_iter().filter(|m| [0, 1, 128, 255, 256].contains(m) || *m + 1 >= chars).collect() } else { cursor_offsets(chars) };
-                for m in offs {
-                    let mut p = line.clone();
-                    p.extend(rep_ev(k(Key::Left), m));
-                    pre.push((format!("line of {} bytes of {:?}, cursor {} left of the end", n, c, m), p));
+                if chars == 0 {
+                    continue;
                 }
+                let mut p = line.clone();
+                p.extend(rep_ev(k(Key::Left), chars));
+                sweeps.push((format!("line of {} bytes of {:?}, then Left x{}", n, c, chars), p, chars - 1));
             }
         }
         // walk over the whole line and back, delete everything from the middle
@@ -87,13 +90,14 @@ pub fn c05_scale(rep: &mut Report, tier: &str, seed: u64) {
         pre.push(("walk left, right, delete from the middle".to_string(), walk));
         let mut cfg = base_cfg(
             "C05",
-            format!("editor scale cb={} hb=0 raw (checked prefill over {} paths, then depth-bounded)", cb, pre.len()),
+            format!("editor scale cb={} hb=0 raw (checked prefill over {} paths, every cursor position of {} long lines as a start, then depth-bounded)", cb, pre.len() + sweeps.len(), sweeps.len()),
             cb,
             0,
             alphabet.clone(),
             Mon { editor: true, invariants: true, ..Default::default() },
         );
         cfg.prefilled = pre;
+        cfg.prefilled_sweep = sweeps;
         let name = cfg.label.clone();
         run_raw(rep, cfg, &dcaps, seed);
         rep.required.push((name.clone(), "editor_insert_rejected".into()));
@@ -291,6 +295,30 @@ pub fn c06_scale(rep: &mut Report, tier: &str, seed: u64, prop: &'static str) {
         );
         cfg.prefilled = pre;
         run_cmd4(rep, cfg, &dcaps, seed);
+        // every cursor position of long lines x every event (depth 1)
+        let mut sweeps: Vec<(String, Vec<Ev>, usize)> = vec![];
+        let ns: Vec<usize> = if quick { vec![11, 33, 101, 111, 257] } else { vec![9, 10, 11, 17, 33, 65, 100, 101, 111, 129, 257, 300, 513] };
+        for n in ns.into_iter().filter(|&n| n <= cb) {
+            for c in if n == 33 || n == 101 { vec!['a', 'é'] } else { vec!['a'] } {
+                let line = fill_line(c, n);
+                let chars = line.len();
+                let mut p = line.clone();
+                p.extend(rep_ev(k(Key::Left), chars));
+                sweeps.push((format!("line of {} bytes of {:?}, then Left x{}", n, c, chars), p, chars - 1));
+            }
+        }
+        let mut d1 = dcaps.clone();
+        d1.max_depth = 1;
+        let mut cfg = base_cfg(
+            prop,
+            format!("screen scale cb={} hb={} cmd4 (every cursor position of {} long lines x every event)", cb, hb, sweeps.len()),
+            cb,
+            hb,
+            alphabet.clone(),
+            mon.clone(),
+        );
+        cfg.prefilled_sweep = sweeps;
+        run_cmd4(rep, cfg, &d1, seed);
     }
 }
 
@@ -336,8 +364,20 @@ pub fn c01_scale(rep: &mut Report, tier: &str, seed: u64) {
     p.push(k(Key::Up));
     p.push(k(Key::Up));
     pre.push(("five submitted lines, Up x3".to_string(), p));
-    let mut cfg = base_cfg("C01", format!("dispatch scale cb={} hb={} raw (checked prefill over {} paths, then depth-bounded)", cb, hb, pre.len()), cb, hb, alphabet, mon);
+    // every cursor position of the lines built above (except the history one) is a start
+    let mut sweeps: Vec<(String, Vec<Ev>, usize)> = vec![];
+    for (label, evs) in pre.iter().filter(|(l, _)| !l.contains("cursor") && !l.contains("submitted")) {
+        let chars = evs.len();
+        if chars == 0 || (quick && chars > 140) {
+            continue;
+        }
+        let mut p = evs.clone();
+        p.extend(rep_ev(k(Key::Left), chars));
+        sweeps.push((format!("{}, then Left x{}", label, chars), p, chars - 1));
+    }
+    let mut cfg = base_cfg("C01", format!("dispatch scale cb={} hb={} raw (checked prefill over {} paths, every cursor position of {} lines as a start, then depth-bounded)", cb, hb, pre.len() + sweeps.len(), sweeps.len()), cb, hb, alphabet, mon);
     cfg.prefilled = pre;
+    cfg.prefilled_sweep = sweeps;
     let name = cfg.label.clone();
     run_raw(rep, cfg, &dcaps, seed);
     rep.required.push((name, "dispatch_with_args".into()));
